@@ -483,6 +483,7 @@ class Walker:
         if all(a[0] == 'F' for a in v.atoms):
             return
         vv = union([v])
+        vv.ext = True      # neutral: holding a reference does not change what kind of object the holder is
         for (k, n, w) in base.atoms:
             if k == 'V':
                 self.add_site(n, node, vv)
